@@ -107,6 +107,44 @@ def run_shard(shard, tier, seed):
                     v('unchecked-order-not-insertion-order', t, case, {'after': 'replace+remove'})
             if len(samples) < 2:
                 samples.append(case)
+        # ---------------- (d) children with a history: they were attached to (and detached from / replaced in) a checked
+        # element before; an unchecked parent must handle them like any other child
+        if alpha:
+            for how in ('replaced-out', 'removed', 'still-attached-elsewhere'):
+                evals += 1
+                nontriv += 1
+                case = {'cls': cn, 'part': 'd', 'how': how}
+                P = lib.call(lambda: lib.make(cls, check=True, with_required=True))
+                if P[0] == 'exc':
+                    break
+                P = P[1]
+                sname = alpha[0]
+                k = lib.make(lib.child_cls(sname))
+                if lib.call(P.add_child, k)[0] == 'exc':
+                    break
+                if how == 'replaced-out':
+                    if lib.call(P.replace_child, k, lib.make(lib.child_cls(sname)))[0] == 'exc':
+                        continue
+                elif how == 'removed':
+                    if lib.call(P.remove, k)[0] == 'exc':
+                        continue
+                U = lib.make(cls, check=False)
+                other = lib.make(lib.child_cls(rnd.choice(FOREIGN)))
+                for step, f, a in (('add', U.add_child, (k,)), ('add', U.add_child, (other,)), ('to_string', U.to_string, ()),
+                                   ('remove', U.remove, (k,)), ('to_string', U.to_string, ())):
+                    r = lib.call(f, *a)
+                    if r[0] == 'exc':
+                        v('unchecked-%s-raises' % step.replace('_', '-'), t, case, {'msg': str(r[1])[:100], 'child_history': how},
+                          {'exc': type(r[1]).__name__, 'child_history': how})
+                        break
+                else:
+                    if [x.name for x in U.get_children()] != [other.name]:
+                        v('unchecked-children-view-differs', t, case, {'child_history': how})
+                    if how == 'still-attached-elsewhere':
+                        # removing it from the unchecked parent must not have touched the checked parent's structure
+                        if k not in P.get_children(True):
+                            v('removal-from-unchecked-parent-changes-another-element', t, case)
+                c['children_with_history'] += 1
         if t not in ref.DFAS or lib.TYPES.get(t) is not cls:
             continue
         d = ref.DFAS[t]
